@@ -932,6 +932,9 @@ val enc_into :
 
 val sbe_source_packets : sb_encoder -> ((n * n) * n list) list outcome
 
+val sbe_repair_packets_pinned :
+  mode -> sb_encoder -> n -> n -> ((n * n) * n list) list outcome
+
 val sbe_repair_packets :
   mode -> sb_encoder -> n -> n -> ((n * n) * n list) list outcome
 
